@@ -202,21 +202,26 @@ def run(chk):
         chk.case(info, ("pttempo", n))
         # Gibbs
         gsys = oqupy.System(0.5 * oqupy.operators.sigma("z"))
-        gcorr = oqupy.PowerLawSD(alpha=0.1, zeta=1, cutoff=3.0, cutoff_type="exponential", temperature=1.0)
-        gbath = oqupy.Bath(np.array([[1.0, 0.0], [0.0, 0.0]]), gcorr)
-        g = oqupy.GibbsTempo(gsys, gbath, oqupy.GibbsParameters(n_steps=n + 1, epsrel=1e-9))
-        info = {"driver": "gibbs", "n_steps": n + 1}
-        chk.search_cases += 1
-        try:
-            quiet(g.compute, progress_type="silent")
-            s1, n1 = g.get_state(), len(g.get_dynamics().times)
-            quiet(g.compute, progress_type="silent")
-            s2, n2 = g.get_state(), len(g.get_dynamics().times)
-            if n1 != n2 or not np.array_equal(s1, s2):
-                chk.fail("fixed-end-advances", f"GibbsTempo: a second compute() changes the state (|d|={np.abs(s1 - s2).max():.2e}) or the dynamics length {n1}->{n2}", info)
-        except Exception as ex:
-            chk.fail("fixed-end-raises", f"GibbsTempo: repeating compute() raises {ex!r}", info)
-        chk.case(info, ("gibbs", n))
+        # temperatures and slice numbers incl. pairs for which n * (1/(T n)) falls one ulp below 1/T in binary64
+        for gT, gn in ((1.0, n + 1), (0.7, [5, 9, 10, 15, 18][n % 5]), (0.2, [7, 14, 17][n % 3])):
+            gcorr = oqupy.PowerLawSD(alpha=0.1, zeta=1, cutoff=3.0, cutoff_type="exponential", temperature=gT)
+            gbath = oqupy.Bath(np.array([[1.0, 0.0], [0.0, 0.0]]), gcorr)
+            g = oqupy.GibbsTempo(gsys, gbath, oqupy.GibbsParameters(n_steps=gn, epsrel=1e-9))
+            info = {"driver": "gibbs", "n_steps": gn, "temperature": gT}
+            chk.search_cases += 1
+            try:
+                quiet(g.compute, progress_type="silent")
+                s1, n1 = g.get_state(), len(g.get_dynamics().times)
+                quiet(g.compute, progress_type="silent")
+                s2, n2 = g.get_state(), len(g.get_dynamics().times)
+                quiet(g.compute, progress_type="silent")
+                s3, n3 = g.get_state(), len(g.get_dynamics().times)
+                if n1 != n2 or n1 != n3 or n1 != gn + 1 or not np.array_equal(s1, s2) or not np.array_equal(s1, s3):
+                    chk.fail("fixed-end-advances", f"GibbsTempo(n_steps={gn}, T={gT}): a repeated compute() changes the state (|d|={np.abs(s1 - s2).max():.2e}) or the "
+                             f"number of recorded slices {n1} -> {n2} -> {n3} (n_steps + 1 = {gn + 1})", info)
+            except Exception as ex:
+                chk.fail("fixed-end-raises", f"GibbsTempo(n_steps={gn}, T={gT}): repeating compute() raises {ex!r}", info)
+            chk.case(info, ("gibbs", gn, gT))
 
     # ---- restart of a chain computation ------------------------------------------------------
     from oqupy.control import ChainControl
